@@ -337,22 +337,14 @@ func main() {
 		contents := []string{"gradient", "noise", "flat", "few-colours", "text"}
 		alphas := []string{"opaque", "binary", "graded", "one-pixel", "last-pixel", "first-pixel"}
 		sizes := [][2]int{{1, 1}, {1, 7}, {9, 1}, {15, 17}, {16, 16}, {17, 33}, {32, 32}}
-		for i := 0; i < n; i++ {
-			rng := c.Rng.Fork()
-			sz := sizes[rng.Intn(len(sizes))]
-			if rng.Intn(3) == 0 {
-				sz = [2]int{rng.Range(1, maxSide), rng.Range(1, maxSide)}
-			}
-			w, h := sz[0], sz[1]
-			content, alpha := i%5, (i/5)%6
-			im, transparent := genImage(rng, w, h, content, alpha)
-			o, meta := randOpts(rng, i)
-			cs := c02Case{w, h, contents[content], alphas[alpha], o, meta}
+		evalCase := func(i int, im *image.NRGBA, transparent bool, o webp.EncoderOptions, meta, contentName, alphaName string) {
+			w, h := im.Bounds().Dx(), im.Bounds().Dy()
+			cs := c02Case{w, h, contentName, alphaName, o, meta}
 			cs.Opts.ICC, cs.Opts.EXIF, cs.Opts.XMP = nil, nil, nil
 			c.D.Evaluations++
 			c.Count(fmt.Sprintf("lossless:%v", o.Lossless))
-			c.Count("content:" + contents[content])
-			c.Count("alpha:" + alphas[alpha])
+			c.Count("content:" + contentName)
+			c.Count("alpha:" + alphaName)
 			var buf bytes.Buffer
 			var err error
 			func() {
@@ -371,20 +363,20 @@ func main() {
 				} else {
 					c.Count("encode-error")
 				}
-				continue
+				return
 			}
 			file := buf.Bytes()
 			chunks, werr := walk(file)
 			if werr != "" {
 				c.Violate("riff-walk", "written file is not a well-formed RIFF/WebP container: "+werr, map[string]any{"case": cs, "file": hex.EncodeToString(file)})
-				continue
+				return
 			}
 			if msg := conform(chunks, w, h, o.Lossless, transparent, &o); msg != "" {
 				c.Violate("container-conformance", msg, map[string]any{"case": cs, "file": hex.EncodeToString(file)})
-				continue
+				return
 			}
 			vp8x := chunks[0].id == "VP8X"
-			c.Nontrivial(fmt.Sprintf("%v/m%d/%s/%s/p%d/s%d/%s/%v", o.Lossless, o.Method, contents[content], alphas[alpha], o.Partitions, o.Segments, meta, vp8x))
+			c.Nontrivial(fmt.Sprintf("%v/m%d/%s/%s/p%d/s%d/%s/%v", o.Lossless, o.Method, contentName, alphaName, o.Partitions, o.Segments, meta, vp8x))
 			// webp.Decode must accept it
 			var dec image.Image
 			func() {
@@ -397,11 +389,11 @@ func main() {
 			}()
 			if err != nil {
 				c.Violate("own-decoder-rejects", "webp.Decode rejects a file Encode reported as written: "+err.Error(), map[string]any{"case": cs, "file": hex.EncodeToString(file)})
-				continue
+				return
 			}
 			if dec.Bounds().Dx() != w || dec.Bounds().Dy() != h {
 				c.Violate("decoded-dims", "decoded dimensions differ from the source", cs)
-				continue
+				return
 			}
 			// canonical line: what Go says about the file; the specification models must say the same
 			digest := "-"
@@ -409,7 +401,7 @@ func main() {
 				t, ok := dec.(*image.NRGBA)
 				if !ok {
 					c.Violate("colour-model", "a lossless file did not decode to NRGBA", cs)
-					continue
+					return
 				}
 				digest = fnvHex(t.Pix[:w*h*4])
 			} else {
@@ -431,7 +423,7 @@ func main() {
 				ycc, ok := yim.(*image.YCbCr)
 				if yerr != nil || !ok {
 					c.Violate("vp8-chunk-alone", fmt.Sprintf("the VP8 chunk of the written file does not decode on its own: %v", yerr), cs)
-					continue
+					return
 				}
 				cw, chh := (w+1)/2, (h+1)/2
 				planes := make([]byte, 0, w*h+2*cw*chh)
@@ -466,6 +458,48 @@ func main() {
 			if i < 3 {
 				c.Sample(map[string]any{"case": cs, "file_bytes": len(file), "go_line": line})
 			}
+		}
+		for i := 0; i < n; i++ {
+			rng := c.Rng.Fork()
+			sz := sizes[rng.Intn(len(sizes))]
+			if rng.Intn(3) == 0 {
+				sz = [2]int{rng.Range(1, maxSide), rng.Range(1, maxSide)}
+			}
+			w, h := sz[0], sz[1]
+			content, alpha := i%5, (i/5)%6
+			im, transparent := genImage(rng, w, h, content, alpha)
+			o, meta := randOpts(rng, i)
+			evalCase(i, im, transparent, o, meta, contents[content], alphas[alpha])
+		}
+		// VP8L plane-code sweep: one picture per short-distance code (dx, dy), built so that the
+		// LZ77 search of the lossless encoder copies from exactly that offset: an encoder whose
+		// distance-code table differs from the format's is seen by the specification decoder
+		// (the package's own decoder shares the table and cannot see it).
+		for k := 0; k < 120; k++ {
+			rng := c.Rng.Fork()
+			dy, dx := k/17, k%17-8 // dy 0..7, dx -8..8 (RFC: 120 codes over this neighbourhood)
+			if dy == 0 && dx <= 0 {
+				continue
+			}
+			w, h := 20+rng.Intn(5), 10+rng.Intn(4)
+			im := image.NewNRGBA(image.Rect(0, 0, w, h))
+			for y := 0; y < h; y++ {
+				for x := 0; x < w; x++ {
+					o := im.PixOffset(x, y)
+					sx, sy := x-dx, y-dy
+					if sy >= 0 && sx >= 0 && sx < w && (y*w+x) > w+9 {
+						copy(im.Pix[o:o+4], im.Pix[im.PixOffset(sx, sy):])
+					} else {
+						im.Pix[o], im.Pix[o+1], im.Pix[o+2], im.Pix[o+3] = byte(rng.U64()), byte(rng.U64()), byte(rng.U64()), 255
+					}
+				}
+			}
+			o := *webp.DefaultOptions()
+			o.Lossless = true
+			o.Method = rng.Pick(0, 3, 4, 6)
+			o.Quality = float32(rng.Pick(20, 75, 100))
+			c.Count("stream:plane-code-sweep")
+			evalCase(1000000+k, im, false, o, "none", fmt.Sprintf("plane-copy(%d,%d)", dx, dy), "opaque")
 		}
 		// header-field correspondence: assembleFrame's fixed-width fields through the real
 		// encoder are covered above (dimensions, tag); the size-table layout is compared on
